@@ -142,3 +142,234 @@ Proof.
   intros H. destruct (pystr_eqb (s2p "GREEN") n) eqn:H3; [|exact H].
   apply pystr_eqb_spec in H2. apply pystr_eqb_spec in H3. subst n. discriminate H3.
 Qed.
+
+(* ---- the tie to the source of the ELEMENT LOOPS, re-checked by the kernel on every run -------------------
+   Gen/CollectionsSrc.v is re-generated from typedpy/fields/array.py, deque_field.py, tuple_field.py, set_field.py,
+   map_field.py, multified_wrappers.py (harness/genmods/py2v_collections.py): the __set__ methods of Array / Deque /
+   Tuple / Set / ImmutableSet / Map and of AllOf / AnyOf / OneOf / NotField, parametric in the item fields' own chains
+   (rec_of ... i = vset of the i-th item field, exactly as vset recurses).  For EVERY declaration and value what
+   the source does NOW (validate each element on a scratch structure, read the converted element back, rebuild and
+   wrap the container; positional vs single item field; the option loops with their exception handling) is the
+   corresponding case of the model's vset, on which C02_decision is proved. *)
+From TP Require Import Base.PyObj Base.PyOpsCollections Gen.CollectionsSrc Fields.CollectionsSrcProofs.
+
+Theorem C02_src_array_each :
+  forall (re_match : N -> pystr -> bool) (e : env) (item : field) 
+           (sz : sizec) (u : bool) (a : option bool) (im : bool) (name : pystr) 
+           (nm : names) (iattrs : list (pystr * cobj)) (v : pyval),
+         name_ok name = true ->
+         validating iattrs = true ->
+         set_result
+           (Src_Array_set re_match (rec_of re_match e [item]) nm (coll_self name (OFld 0) sz u a im)
+              (OObj KInst iattrs) (OVal v)) = vset re_match e (FSeqEach SeqList item sz u) v.
+Proof. exact generated_array_each. Qed.
+
+Theorem C02_src_array_any :
+  forall (re_match : N -> pystr -> bool) (e : env) (rec : nat -> pyval -> res pyval)
+           (sz : sizec) (u : bool) (a : option bool) (im : bool) (name : pystr) 
+           (nm : names) (iattrs : list (pystr * cobj)) (v : pyval),
+         validating iattrs = true ->
+         set_result
+           (Src_Array_set re_match rec nm (coll_self name (OVal PNone) sz u a im) 
+              (OObj KInst iattrs) (OVal v)) = vset re_match e (FSeqAny SeqList sz u) v.
+Proof. exact generated_array_any. Qed.
+
+Theorem C02_src_array_pos :
+  forall (re_match : N -> pystr -> bool) (e : env) (items : list field) 
+           (sz : sizec) (u : bool) (additional : option bool) (im : bool) 
+           (name : pystr) (nm : names) (iattrs : list (pystr * cobj)) (v : pyval),
+         name_ok name = true ->
+         validating iattrs = true ->
+         set_result
+           (Src_Array_set re_match (rec_of re_match e items) nm
+              (coll_self name (OFlds (fids items)) sz u additional im) (OObj KInst iattrs) 
+              (OVal v)) = vset re_match e (FSeqPos SeqList items sz u additional) v.
+Proof. exact generated_array_pos. Qed.
+
+Theorem C02_src_deque_each :
+  forall (re_match : N -> pystr -> bool) (e : env) (item : field) 
+           (sz : sizec) (u : bool) (a : option bool) (im : bool) (name : pystr) 
+           (nm : names) (iattrs : list (pystr * cobj)) (v : pyval),
+         name_ok name = true ->
+         set_result
+           (Src_Deque_set re_match (rec_of re_match e [item]) nm (coll_self name (OFld 0) sz u a im)
+              (OObj KInst iattrs) (OVal v)) = vset re_match e (FSeqEach SeqDeque item sz u) v.
+Proof. exact generated_deque_each. Qed.
+
+Theorem C02_src_deque_any :
+  forall (re_match : N -> pystr -> bool) (e : env) (rec : nat -> pyval -> res pyval)
+           (sz : sizec) (u : bool) (a : option bool) (im : bool) (name : pystr) 
+           (nm : names) (iattrs : list (pystr * cobj)) (v : pyval),
+         set_result
+           (Src_Deque_set re_match rec nm (coll_self name (OVal PNone) sz u a im) 
+              (OObj KInst iattrs) (OVal v)) = vset re_match e (FSeqAny SeqDeque sz u) v.
+Proof. exact generated_deque_any. Qed.
+
+Theorem C02_src_deque_pos :
+  forall (re_match : N -> pystr -> bool) (e : env) (items : list field) 
+           (sz : sizec) (u : bool) (additional : option bool) (im : bool) 
+           (name : pystr) (nm : names) (iattrs : list (pystr * cobj)) (v : pyval),
+         name_ok name = true ->
+         validating iattrs = true ->
+         set_result
+           (Src_Deque_set re_match (rec_of re_match e items) nm
+              (coll_self name (OFlds (fids items)) sz u additional im) (OObj KInst iattrs) 
+              (OVal v)) = vset re_match e (FSeqPos SeqDeque items sz u additional) v.
+Proof. exact generated_deque_pos. Qed.
+
+Theorem C02_src_tuple :
+  forall (re_match : N -> pystr -> bool) (e : env) (items : list field) 
+           (u : bool) (sz : sizec) (a : option bool) (im : bool) (name : pystr) 
+           (nm : names) (iattrs : list (pystr * cobj)) (v : pyval),
+         name_ok name = true ->
+         tuple_declared items = true ->
+         set_result
+           (Src_Tuple_set re_match (rec_of re_match e items) nm
+              (coll_self name (OFlds (fids items)) sz u a im) (OObj KInst iattrs) 
+              (OVal v)) = vset re_match e (FTuple items u) v.
+Proof. exact generated_tuple. Qed.
+
+Theorem C02_src_set_items_py :
+  forall (re_match : N -> pystr -> bool) (e : env) (g : field) (sz : sizec) 
+           (u : bool) (a : option bool) (im : bool) (name : pystr) (nm : names)
+           (iattrs : list (pystr * cobj)) (v : pyval),
+         validating iattrs = true ->
+         py_container_ok v = true ->
+         set_result
+           (Src_Set_set re_match (rec_of re_match e [g]) nm (coll_self name (OFld 0) sz u a im)
+              (OObj KInst iattrs) (OVal v)) = vset re_match e (FSet false (Some g) sz) v.
+Proof. exact generated_set_items_py. Qed.
+
+Theorem C02_src_set_plain :
+  forall (re_match : N -> pystr -> bool) (e : env) (rec : nat -> pyval -> res pyval)
+           (sz : sizec) (u : bool) (a : option bool) (im : bool) (name : pystr) 
+           (nm : names) (iattrs : list (pystr * cobj)) (v : pyval),
+         validating iattrs = true ->
+         set_result
+           (Src_Set_set re_match rec nm (coll_self name (OVal PNone) sz u a im) 
+              (OObj KInst iattrs) (OVal v)) = vset re_match e (FSet false None sz) v.
+Proof. exact generated_set_plain. Qed.
+
+Theorem C02_src_immutableset_items :
+  forall (re_match : N -> pystr -> bool) (e : env) (g : field) (sz : sizec) 
+           (u : bool) (a : option bool) (im : bool) (name : pystr) (nm : names)
+           (iattrs : list (pystr * cobj)) (v : pyval),
+         name_ok name = true ->
+         validating iattrs = true ->
+         iset_first_ok re_match e g v = true ->
+         match vset re_match e (FSet true (Some g) sz) v with
+         | Ok nf => set_elems_hashable re_match e g nf
+         | Raise _ => true
+         end = true ->
+         set_result
+           (Src_ImmutableSet_set re_match (rec_of re_match e [g]) nm
+              (coll_self name (OFld 0) sz u a im) (OObj KInst iattrs) (OVal v)) =
+         nf <- vset re_match e (FSet true (Some g) sz) v;; vset re_match e (FSet true (Some g) sz) nf.
+Proof. exact generated_immutableset_items. Qed.
+
+Theorem C02_src_immutableset_items_fix :
+  forall (re_match : N -> pystr -> bool) (e : env) (g : field) (sz : sizec) 
+           (u : bool) (a : option bool) (im : bool) (name : pystr) (nm : names)
+           (iattrs : list (pystr * cobj)) (v : pyval),
+         name_ok name = true ->
+         validating iattrs = true ->
+         iset_first_ok re_match e g v = true ->
+         match vset re_match e (FSet true (Some g) sz) v with
+         | Ok nf => set_elems_hashable re_match e g nf
+         | Raise _ => true
+         end = true ->
+         (forall nf : pyval,
+          vset re_match e (FSet true (Some g) sz) v = Ok nf ->
+          vset re_match e (FSet true (Some g) sz) nf = Ok nf) ->
+         set_result
+           (Src_ImmutableSet_set re_match (rec_of re_match e [g]) nm
+              (coll_self name (OFld 0) sz u a im) (OObj KInst iattrs) (OVal v)) =
+         vset re_match e (FSet true (Some g) sz) v.
+Proof. exact generated_immutableset_items_fix. Qed.
+
+Theorem C02_src_immutableset_plain :
+  forall (re_match : N -> pystr -> bool) (e : env) (rec : nat -> pyval -> res pyval)
+           (sz : sizec) (u : bool) (a : option bool) (im : bool) (name : pystr) 
+           (nm : names) (iattrs : list (pystr * cobj)) (v : pyval),
+         validating iattrs = true ->
+         set_result
+           (Src_ImmutableSet_set re_match rec nm (coll_self name (OVal PNone) sz u a im)
+              (OObj KInst iattrs) (OVal v)) = vset re_match e (FSet true None sz) v.
+Proof. exact generated_immutableset_plain. Qed.
+
+Theorem C02_src_map_kv_py :
+  forall (re_match : N -> pystr -> bool) (e : env) (kf vf : field) 
+           (sz : sizec) (u : bool) (a : option bool) (im : bool) (name : pystr) 
+           (nm : names) (iattrs : list (pystr * cobj)) (v : pyval),
+         name_ok name = true ->
+         py_container_ok v = true ->
+         set_result
+           (Src_Map_set re_match (rec_of re_match e [kf; vf]) nm
+              (coll_self name (OFlds [0; 1]) sz u a im) (OObj KInst iattrs) 
+              (OVal v)) = vset re_match e (FMapKV kf vf sz) v.
+Proof. exact generated_map_kv_py. Qed.
+
+Theorem C02_src_map_any :
+  forall (re_match : N -> pystr -> bool) (e : env) (rec : nat -> pyval -> res pyval)
+           (sz : sizec) (u : bool) (a : option bool) (im : bool) (name : pystr) 
+           (nm : names) (iattrs : list (pystr * cobj)) (v : pyval),
+         set_result
+           (Src_Map_set re_match rec nm (coll_self name (OVal PNone) sz u a im) 
+              (OObj KInst iattrs) (OVal v)) = vset re_match e (FMapAny sz) v.
+Proof. exact generated_map_any. Qed.
+
+Theorem C02_src_allof :
+  forall (re_match : N -> pystr -> bool) (e : env) (fs : list field) 
+           (name : pystr) (nm : names) (iattrs : list (pystr * cobj)) (v : pyval),
+         validating iattrs = true ->
+         set_result
+           (Src_AllOf_set re_match (rec_of re_match e fs) nm (multi_self name (Datatypes.length fs))
+              (OObj KInst iattrs) (OVal v)) = vset re_match e (FAllOf fs) v.
+Proof. exact generated_allof. Qed.
+
+Theorem C02_src_anyof :
+  forall (re_match : N -> pystr -> bool) (e : env) (fs : list field) 
+           (name : pystr) (nm : names) (iattrs : list (pystr * cobj)) (v : pyval),
+         validating iattrs = true ->
+         set_result
+           (Src_AnyOf_set re_match (rec_of re_match e fs) nm (multi_self name (Datatypes.length fs))
+              (OObj KInst iattrs) (OVal v)) = vset re_match e (FAnyOf fs) v.
+Proof. exact generated_anyof. Qed.
+
+Theorem C02_src_oneof :
+  forall (re_match : N -> pystr -> bool) (e : env) (fs : list field) 
+           (name : pystr) (nm : names) (iattrs : list (pystr * cobj)) (v : pyval),
+         validating iattrs = true ->
+         set_result
+           (Src_OneOf_set re_match (rec_of re_match e fs) nm (multi_self name (Datatypes.length fs))
+              (OObj KInst iattrs) (OVal v)) = vset re_match e (FOneOf fs) v.
+Proof. exact generated_oneof. Qed.
+
+Theorem C02_src_notfield :
+  forall (re_match : N -> pystr -> bool) (e : env) (fs : list field) 
+           (name : pystr) (nm : names) (iattrs : list (pystr * cobj)) (v : pyval),
+         validating iattrs = true ->
+         set_result
+           (Src_NotField_set re_match (rec_of re_match e fs) nm
+              (multi_self name (Datatypes.length fs)) (OObj KInst iattrs) 
+              (OVal v)) = vset re_match e (FNot fs) v.
+Proof. exact generated_notfield. Qed.
+
+Print Assumptions C02_src_array_each.
+Print Assumptions C02_src_array_any.
+Print Assumptions C02_src_array_pos.
+Print Assumptions C02_src_deque_each.
+Print Assumptions C02_src_deque_any.
+Print Assumptions C02_src_deque_pos.
+Print Assumptions C02_src_tuple.
+Print Assumptions C02_src_set_items_py.
+Print Assumptions C02_src_set_plain.
+Print Assumptions C02_src_immutableset_items.
+Print Assumptions C02_src_immutableset_items_fix.
+Print Assumptions C02_src_immutableset_plain.
+Print Assumptions C02_src_map_kv_py.
+Print Assumptions C02_src_map_any.
+Print Assumptions C02_src_allof.
+Print Assumptions C02_src_anyof.
+Print Assumptions C02_src_oneof.
+Print Assumptions C02_src_notfield.
